@@ -10,6 +10,12 @@ from xml.sax.saxutils import escape
 
 HOST = "dev:1234"
 CALLBACK = "http://192.168.1.2:8090/notify"
+CALLBACK_NOW = [CALLBACK]     # what the fake notify server's callback_url returns at this moment (C09 'url' steps change it)
+
+
+def callback_for(n: int) -> str:
+    """the callback URL after the notify server was restarted on its n-th port"""
+    return f"http://192.168.1.2:{8090 + n}/notify"
 DEVICE_URL = f"http://{HOST}/device.xml"
 
 _DEV = """<?xml version="1.0"?>
@@ -130,7 +136,7 @@ async def make_env(svc_vars: List[List[Dict[str, Any]]], aiohttp_server: bool = 
     class NotifyServer(UpnpNotifyServer):
         @property
         def callback_url(self) -> str:
-            return CALLBACK
+            return CALLBACK_NOW[0]
 
         async def async_start_server(self) -> None:
             pass
